@@ -169,7 +169,7 @@ void oracle_delivery(World& W)
         if (!err_text && pad != make_pad(s.w, s.seq, s.padlen)) { fail(W, "statement " + id + " payload corrupted (" + std::to_string(pad.size()) + " B, expected " + std::to_string(s.padlen) + " B)"); return; }
         if (err_text)
         {
-          char const* tmpl = s.kind == SKind::BadTemplate ? "{}:{}:{} {}" : s.kind == SKind::BadSpec ? "{}:{}:{:d}" : s.kind == SKind::NamedBadSpec ? "{a}:{b}:{c:d}" : "{}{}";
+          char const* tmpl = s.kind == SKind::BadTemplate ? "{}:{}:{} {}" : (s.kind == SKind::BadSpec || s.kind == SKind::RtBadSpec) ? "{}:{}:{:d}" : s.kind == SKind::NamedBadSpec ? "{a}:{b}:{c:d}" : "{}{}";
           if (e.msg.find(tmpl) == std::string::npos) { fail(W, "error text does not name the template " + std::string{tmpl} + ": " + esc(e.msg, 160)); return; }
         }
         if (e.logger != L.name) { fail(W, "statement " + id + " carries logger name " + e.logger + ", expected " + L.name); return; }
